@@ -30,12 +30,49 @@ pub struct Chain {
     pub hops: Vec<HopSpec>,
     /// the original request carries an explicit `Host` header naming the start URI's host (callers that always set Host)
     pub explicit_host: bool,
+    /// what the original request looks like (`SHAPES`): its method, whether it has a body, the headers next to Authorization
+    pub shape: usize,
+}
+
+/// Original requests: (method, Content-Length of its body or None, extra headers). Shape 0 is the plain GET.
+pub const SHAPES: [(&str, Option<usize>, &[(&str, &str)]); 7] = [
+    ("GET", None, &[]),
+    ("GET", None, &[("expect", "100-continue"), ("cookie", "a=1")]),
+    ("POST", None, &[("expect", "100-continue"), ("content-type", "text/plain")]),
+    ("HEAD", None, &[("cookie", "a=1")]),
+    ("PUT", Some(3), &[("cookie", "a=1")]),
+    ("OPTIONS", None, &[("expect", "100-continue")]),
+    ("DELETE", None, &[]),
+];
+
+/// The documented method table (C15), needed here only to know whether a hop is followed at all and with which method.
+fn followed_method(m: &str, status: u16) -> Option<&'static str> {
+    let keep: &'static str = match m {
+        "GET" => "GET",
+        "HEAD" => "HEAD",
+        "OPTIONS" => "OPTIONS",
+        "POST" => "POST",
+        "PUT" => "PUT",
+        _ => "DELETE",
+    };
+    if status == 307 || status == 308 {
+        if matches!(m, "POST" | "PUT" | "PATCH" | "DELETE") {
+            None
+        } else {
+            Some(keep)
+        }
+    } else if m == "HEAD" {
+        Some("HEAD")
+    } else {
+        Some("GET")
+    }
 }
 
 pub fn chain_json(c: &Chain) -> Value {
     json!({
         "start": c.start,
         "original_request_has_explicit_host": c.explicit_host,
+        "original_request": {"method": SHAPES[c.shape].0, "content_length": SHAPES[c.shape].1, "headers_next_to_authorization": SHAPES[c.shape].2.iter().map(|(k, v)| format!("{}: {}", k, v)).collect::<Vec<_>>()},
         "hops": c.hops.iter().map(|h| json!({
             "status": h.status,
             "locations": h.locations.iter().map(|l| String::from_utf8_lossy(l).to_string()).collect::<Vec<_>>(),
@@ -58,18 +95,39 @@ pub fn redirect_head(status: u16, locations: &[Vec<u8>]) -> Vec<u8> {
 }
 
 /// One hop on the real flow: returns the emitted head of `f`, and the result of following the redirect.
-pub fn do_hop(mut f: Flow<(), Prepare>, h: &HopSpec) -> Result<(Vec<u8>, Result<Option<Flow<(), Prepare>>, ureq_proto::Error>), String> {
+pub fn do_hop(f: Flow<(), Prepare>, h: &HopSpec) -> Result<(Vec<u8>, Result<Option<Flow<(), Prepare>>, ureq_proto::Error>), String> {
+    do_hop_body(f, h, 0)
+}
+
+/// As `do_hop`, for a flow whose request body has `body_len` bytes. An answer other than a new flow is asked for a second
+/// time, with the other policy: the answer is about the response, so it is the same (and asking never panics).
+pub fn do_hop_body(mut f: Flow<(), Prepare>, h: &HopSpec, body_len: usize) -> Result<(Vec<u8>, Result<Option<Flow<(), Prepare>>, ureq_proto::Error>), String> {
     let head = redirect_head(h.status, &h.locations);
     if h.despite {
         f.send_body_despite_method();
     }
-    let (req_head, _, term) = exchange(f, 0, &head, b"")?;
+    let (req_head, _, term) = exchange(f, body_len, &head, b"")?;
     let mut red = match term {
         Terminal::Redirect(r) => r,
         Terminal::Cleanup(_) => return Err(format!("status {} did not reach the redirect state", h.status)),
     };
     let policy = if h.same_host_policy { RedirectAuthHeaders::SameHost } else { RedirectAuthHeaders::Never };
     let r = red.as_new_flow(policy);
+    if !matches!(r, Ok(Some(_))) {
+        let other = if h.same_host_policy { RedirectAuthHeaders::Never } else { RedirectAuthHeaders::SameHost };
+        let again = red.as_new_flow(other);
+        match (&r, &again) {
+            (Err(_), Err(_)) | (Ok(None), Ok(None)) => {}
+            _ => {
+                let kind = |x: &Result<Option<Flow<(), Prepare>>, ureq_proto::Error>| match x {
+                    Err(_) => "an error",
+                    Ok(None) => "'not followed'",
+                    Ok(Some(_)) => "a new flow",
+                };
+                return Err(format!("as_new_flow answered {} and, asked again, {}", kind(&r), kind(&again)));
+            }
+        }
+    }
     // the redirect state stays usable after the attempt
     let _ = red.status();
     let _ = red.must_close_connection();
@@ -93,7 +151,18 @@ pub fn run_chain(c: &Chain, st: &mut Stats) -> Result<(), String> {
     let start_uri: ureq_proto::http::Uri = c.start.parse().map_err(|e| format!("start URI {:?}: {}", c.start, e))?;
     let mut cur: Parts = parse(&c.start);
     let mut cur_target = HttpTarget::from_parts(&cur).ok_or("start URI is not http(s)")?;
-    let mut b = Request::get(start_uri).header("authorization", "Basic abc");
+    let (m0, body0, extra) = SHAPES[c.shape];
+    let mut b = Request::builder().method(m0).uri(start_uri).header("authorization", "Basic abc");
+    for (k, v) in extra {
+        b = b.header(*k, *v);
+    }
+    if let Some(n) = body0 {
+        b = b.header("content-length", n.to_string());
+    }
+    if c.shape != 0 {
+        st.class("original_request_other_than_plain_get");
+    }
+    let mut method: &str = m0;
     if c.explicit_host {
         // the Host clause speaks about every followed request: an explicit Host written for the first URI must not travel to
         // another host
@@ -106,7 +175,9 @@ pub fn run_chain(c: &Chain, st: &mut Stats) -> Result<(), String> {
     for (i, h) in c.hops.iter().enumerate() {
         st.evals(1);
         let what = format!("hop {} (status {}, Location {:?} against {})", i, h.status, h.locations.last().map(|l| String::from_utf8_lossy(l).to_string()), cur_target.to_uri_string());
-        let (req_head, res) = do_hop(f, h).map_err(|e| format!("{}: {}", what, e))?;
+        let body_len = if i == 0 { body0.unwrap_or(0) } else { 0 };
+        let (req_head, res) = do_hop_body(f, h, body_len).map_err(|e| format!("{}: {}", what, e))?;
+        let follow = followed_method(method, h.status);
         // the request that was just made must itself correspond to the current URI
         check_head_against(&cur_target, &req_head, &format!("request of hop {}", i))?;
         if h.must_err || h.locations.is_empty() {
@@ -117,6 +188,11 @@ pub fn run_chain(c: &Chain, st: &mut Stats) -> Result<(), String> {
                     break;
                 }
                 Ok(Some(nf)) => return Err(format!("{}: unresolvable Location produced a request to {}", what, nf.uri())),
+                // a redirect that the method table does not follow anyway: error or 'not followed', either is an honest answer
+                Ok(None) if follow.is_none() => {
+                    st.class("error_class_on_a_hop_not_followed_anyway");
+                    break;
+                }
                 Ok(None) => return Err(format!("{}: unresolvable Location reported as 'not followed' instead of an error", what)),
             }
         }
@@ -125,8 +201,13 @@ pub fn run_chain(c: &Chain, st: &mut Stats) -> Result<(), String> {
         let resolved = resolve(&cur, &r);
         let target = HttpTarget::from_parts(&resolved).ok_or_else(|| format!("generator produced a non-http target: {}", loc))?;
         let nf = match res {
+            Ok(Some(nf)) if follow.is_none() => return Err(format!("{}: a {} redirect of {} is followed (to {})", what, h.status, method, nf.uri())),
             Ok(Some(nf)) => nf,
-            Ok(None) => return Err(format!("{}: GET redirect not followed", what)),
+            Ok(None) if follow.is_none() => {
+                st.class("not_followed_by_the_method_table");
+                break;
+            }
+            Ok(None) => return Err(format!("{}: {} redirect of {} not followed", what, h.status, method)),
             Err(e) => return Err(format!("{}: resolvable Location rejected: {:?}", what, e)),
         };
         let got = nf.uri().to_string();
@@ -157,6 +238,7 @@ pub fn run_chain(c: &Chain, st: &mut Stats) -> Result<(), String> {
         }
         cur_target = target;
         cur = cur_target.to_parts();
+        method = follow.unwrap();
         f = nf;
         if i + 1 == c.hops.len() {
             // the last flow's head, too
@@ -345,7 +427,8 @@ fn exec_random(t: &mut Tape, st: &mut Stats) -> Result<(), String> {
     }
     st.case_digest = t.digest();
     let explicit_host = t.chance(15);
-    let c = Chain { start, hops, explicit_host };
+    let shape = t.weighted(&[10, 2, 2, 1, 2, 1, 1]);
+    let c = Chain { start, hops, explicit_host, shape };
     st.describe(|| chain_json(&c));
     run_chain(&c, st)
 }
@@ -372,7 +455,9 @@ fn exec_table(t: &mut Tape, st: &mut Stats) -> Result<(), String> {
     };
     hops.push(HopSpec { status: 307, locations: vec![r.as_bytes().to_vec()], same_host_policy: true, must_err: false, despite: false });
     let explicit_host = as_second_hop && r.len() % 2 == 0;
-    let c = Chain { start, hops, explicit_host };
+    // as a second hop the chain starts from every shape of original request in turn (the first hop is a 302: all are followed)
+    let shape = if as_second_hop { (r.len() + base.len()) % SHAPES.len() } else { 0 };
+    let c = Chain { start, hops, explicit_host, shape };
     st.describe(|| chain_json(&c));
     st.class("rfc_5_4_table");
     run_chain(&c, st)
@@ -396,7 +481,7 @@ fn exec_errors(t: &mut Tape, st: &mut Stats) -> Result<(), String> {
         locations.push(ERROR_LOCATIONS[e].to_vec());
     }
     hops.push(HopSpec { status: 302, locations, same_host_policy: false, must_err: true, despite: false });
-    let c = Chain { start: "http://a.test/x/y".into(), hops, explicit_host: false };
+    let c = Chain { start: "http://a.test/x/y".into(), hops, explicit_host: false, shape: if preceded { e % SHAPES.len() } else { 0 } };
     st.describe(|| chain_json(&c));
     run_chain(&c, st)
 }
@@ -408,6 +493,9 @@ absolute http/https/HTTP with and without default / non-default ports and mixed-
 path-relative with '.', '..' and empty segments in every position, query-only, empty, the absolute spelling of the URI just requested (8 %), optional fragments; 1..5 Location fields per \
 response (earlier ones possibly garbage, the last one counts); 6 % of hops carry a must-be-error Location (missing, obs-text / non-UTF-8, \
 unclosed '[', port > 65535 or non-numeric, empty authority). 12 % of the flows are turned into body-sending ones (send_body_despite_method) before their request is made. \
+The original request is the plain GET with Authorization in 10 cases of 19; otherwise one of six other shapes (GET or OPTIONS with Expect: 100-continue and a cookie, chunked POST with Expect, HEAD, \
+PUT with Content-Length 3, DELETE), whose bodies are sent; the method is tracked with the documented table only to know whether a hop is followed at all \
+(307/308 of POST/PUT/DELETE: 'not followed' ends the chain). An answer other than a new flow is asked for again with the other policy: same kind of answer, no panic. \
 Oracle: Flow<Prepare>::uri() of the followed flow equals the RFC 3986 5.2 \
 reference resolution (model/rfc3986.rs, validated on the RFC 5.4 tables) of the last Location against the URI of the request just made, \
 compared component-wise after the http normalisations (case, default port, empty path, dot segments), without fragment; the request \
